@@ -36,14 +36,18 @@ def handle : Handler := fun op args impl =>
     let good := "split-pure=1 parts-ok=1 shared=0 orig-unchanged=1"
     let m := if ownsData fns "align" "Split" && pure fns "Split" then good else "facts-say-shared-or-impure"
     some ⟨m, verdictOf (impl == good) "split-writes-into-or-shares-data-with-its-input"⟩
-  | "alias", [_, _, c] =>
+  | "alias", _ :: _ :: c :: _ =>
     match copyRecv.find? (·.1 == c) with
     | none => some ⟨"bad-op", "na"⟩
     | some (_, r, n) =>
-      if ownsData fns r n then
-        some ⟨"shared=0 orig-unchanged=1 copy-unchanged=1",
-              verdictOf (impl == "shared=0 orig-unchanged=1 copy-unchanged=1" || impl == "err") "copy-shares-data-with-original"⟩
-      else some ⟨"shared=1", "na"⟩
+      -- the predicate is evaluated on the implementation's answer whatever the regenerated facts say (the facts
+      -- only decide what the *model* expects): a copy that shares data is a failing input, not just a broken tie
+      let good := "shared=0 orig-unchanged=1 copy-unchanged=1"
+      -- `Sample` (a random subset of the *rows*) hands out the row buffers of its source; it is neither a clone, a
+      -- sub-alignment nor a site selection, so C19 does not require it to own its data (DESIGN 7.2): not judged
+      if c == "sample" && !ownsData fns r n then some ⟨"shared=1", "na"⟩ else
+      some ⟨if ownsData fns r n then good else "shared=1",
+            verdictOf (impl == good || impl == "err") "copy-shares-data-with-original"⟩
   | _, _ => none
 
 end Gv.Oracle.PureOps
